@@ -238,6 +238,56 @@ func collectPartStores(p *Program) []partStore {
 			out = append(out, partStore{fn, symOf(mu.Key), mu})
 		})
 	}
+	// A store whose key is (built from) a parameter of a private helper — storeXMLPart(name, v) —
+	// stands for one store per call site, with the caller's argument as the key.
+	callers := p.callersIndex()
+	for depth := 0; depth < 3; depth++ {
+		var next []partStore
+		expanded := false
+		for _, ps := range out {
+			top := topLevel(ps.Fn)
+			var par *ssa.Parameter
+			for _, part := range ps.Key {
+				if q, ok := part.Sym.(*ssa.Parameter); ok && q.Parent() == top {
+					par = q
+				}
+			}
+			if par == nil || len(callers[top]) == 0 {
+				next = append(next, ps)
+				continue
+			}
+			pi := paramIndex(top, par)
+			did := false
+			for _, caller := range sortedFuncs(callers[top]) {
+				allInstrs(caller, func(in ssa.Instruction) {
+					c, ok := in.(ssa.CallInstruction)
+					if !ok || staticCallee(c) != top || pi >= len(c.Common().Args) {
+						return
+					}
+					arg := symOf(c.Common().Args[pi])
+					var key symString
+					for _, part := range ps.Key {
+						if part.Sym == ssa.Value(par) {
+							key = append(key, arg...)
+						} else {
+							key = append(key, part)
+						}
+					}
+					next = append(next, partStore{caller, key, ps.MU})
+					did = true
+				})
+			}
+			if did {
+				expanded = true
+			} else {
+				next = append(next, ps)
+			}
+		}
+		out = next
+		if !expanded {
+			break
+		}
+	}
 	return out
 }
 
